@@ -23,10 +23,11 @@ def run(tier):
     plan = [("G(0..4) x F", [["--n", n, "--alpha", "F"] for n in range(0, 5)]),
             ("G(6) x F, m <= 6, containing a 6-cycle (all labelled hexagons), default and reversed edge orientation", [["--n", 6, "--alpha", "F", "--max-m", 6, "--need-cycle-len", 6], ["--n", 6, "--alpha", "F", "--max-m", 6, "--need-cycle-len", 6, "--orient", 1]]),
             ("G(4) x F reversed / alternating orientation", [["--n", 4, "--alpha", "F", "--orient", 1], ["--n", 4, "--alpha", "F", "--orient", 2]]),
-            ("G(6) x F, m <= 7, containing a cycle of >= 5 edges, signed+fvs variants", [["--n", 6, "--alpha", "F", "--max-m", 7, "--need-cycle-len", 5, "--variants", "signed,fvs,signed_tbb,fvs_tbb"]]),
-            ("G(5) x F", [["--n", 5, "--alpha", "F"]])]
+            ("G(5) x F", [["--n", 5, "--alpha", "F"]]),
+            ("G(6) x F, m <= 7, containing a cycle of >= 5 edges, sequential signed+fvs variants", [["--n", 6, "--alpha", "F", "--max-m", 7, "--need-cycle-len", 5, "--variants", "signed,fvs"]])]
     if tier == "thorough":
         plan += [("G(4) x F4", [["--n", 4, "--alpha", "F4"]]),
+                 ("G(6) x F, m <= 7, containing a cycle of >= 5 edges, TBB signed+fvs variants", [["--n", 6, "--alpha", "F", "--max-m", 7, "--need-cycle-len", 5, "--variants", "signed_tbb,fvs_tbb"]]),
                  ("G(6) x F, m <= 8, containing a cycle of >= 5 edges", [["--n", 6, "--alpha", "F", "--max-m", 8, "--need-cycle-len", 5]]),
                  ("G(5) x F4", [["--n", 5, "--alpha", "F4"]])]
     for bound, arglists in plan:
